@@ -14,6 +14,7 @@ import CliUtils.Drv.PruneStep
 import CliUtils.Drv.RunnerCache
 import CliUtils.Drv.CacheReader
 import CliUtils.Drv.Scope
+import CliUtils.Drv.Apisvc
 /-
   Line-protocol driver.  stdin: one JSON object per line  {"d": domain, "i": input, "o": implementation output}
   stdout: one line per case that needs attention, then one summary line.
@@ -48,7 +49,7 @@ def handlers : List (String × Handler) := [
   ("sys-C01", SysD.handleSysFor "C01"), ("sys-C02", SysD.handleSysFor "C02"), ("sys-C03", SysD.handleSysFor "C03"),
   ("sys-C04", SysD.handleSysFor "C04"), ("sys-C05", SysD.handleSysFor "C05"), ("sys-C10", SysD.handleSysFor "C10"),
   ("sys-C11", SysD.handleSysFor "C11"), ("sys-C12", SysD.handleSysFor "C12"), ("sys-C13", SysD.handleSysFor "C13"),
-  ("sys-C18", SysD.handleSysFor "C18"), ("sync-race", SysD.handleSyncRace),
+  ("sys-C18", SysD.handleSysFor "C18"), ("sync-race", SysD.handleSyncRace), ("apisvc", Apisvc.handleApisvc),
   ("status", KS.handleStatus),
   ("status-c07", KS.handleStatusC07),
   ("status-c08", KS.handleStatusC08),
